@@ -264,17 +264,17 @@ def concrete_goals(W, sched, cfg, names):
     for rec in recs:
         for k, v in plan_checks(rec, sched).items():
             agg[k] = agg.get(k, True) and v
-    for nm in names:
-        key = nm.split("#")[0]
-        base = key.split("@")[0]
-        if base not in agg and ALIAS.get(base) in agg:
-            W.goal(nm, agg[ALIAS[base]])
-        elif base in agg:
-            W.goal(nm, agg[base])
-        elif base.startswith("C02/vc") or base.startswith("C02/defined"):
-            W.goal(nm, agg.get("C02/noraise", True))
-        else:
-            W.goal(nm, True)
+    def resolve(nm):
+        base = nm.split("#")[0].split("~")[0]
+        if base in agg:
+            return agg[base]
+        if ALIAS.get(base) in agg:
+            return agg[ALIAS[base]]
+        if base.startswith("C02/defined") or base.startswith("C02/vc"):
+            return agg.get("C02/noraise", True)
+        return None
+    W.resolver = resolve
+    W.note("replayed on %d real plans" % len(recs))
 
 
 # ============================================================================ generic post-loop view
@@ -383,8 +383,35 @@ def ob_ltf(W, sched, part, bound=12):
     if part == "twostep":
         wh = split_body(astx.get_function_ast(S().ltf_plan))[1]
         W.assume(I.ev(wh.test, env1))
+        n1 = len(I.trace)
         env2 = I.block(wh.body, env1)
         add_pow_facts(W, cfg)
+        # stepping stones taken from the assignment trace of the two iterations (names as in the current source; if the
+        # code is restructured the hints are simply absent and the final goals are posed without them)
+        def marks(tr):
+            names = [n for n, _ in tr]
+            out = {}
+            if "dftlen" in names and "fres" in names and "nseg" in names:
+                i_d = names.index("dftlen"); i_n = names.index("nseg")
+                fr = [v for n, v in tr[:i_d] if n == "fres"]
+                dl = [v for n, v in tr[:i_n] if n == "dftlen"]
+                if fr and dl:
+                    out = {"fres_pre": fr[-1], "dftlen_pre": dl[-1]}
+            return out
+        loop_tr = [t for t in I.trace]
+        i_first = max(i for i, (n, v) in enumerate(loop_tr[:n1]) if n == "fres" and False) if False else None
+        # first iteration = the trace segment produced by ltf_step's body execution: locate it as the last run of names before n1
+        body_names = [n for n, _ in loop_tr[n1:]]
+        k = len(body_names)
+        m1, m2 = marks(loop_tr[n1 - k:n1]), marks(loop_tr[n1:])
+        if m1 and m2:
+            W.lemma("C04/lemma:resolution-before-rounding-nondecreasing", m2["fres_pre"] >= m1["fres_pre"])
+            W.lemma("C04/lemma:length-before-single-segment-rule-nonincreasing", m2["dftlen_pre"] <= m1["dftlen_pre"])
+            d1, d2 = m1["dftlen_pre"], m2["dftlen_pre"]
+            xov = 1 - olap
+            W.lemma("C04/lemma:lengths>=1", W.And(d1 >= 1, d2 >= 1, d1 <= N, d2 <= N))
+            W.lemma("C04/lemma:ideal-averages-nondecreasing", (N - d2) / (xov * d2) >= (N - d1) / (xov * d1))
+            W.lemma("C04/lemma:nseg-nondecreasing", env2["nseg"] >= K)
         W.goal("C04/L-nonincreasing", env2["dftlen"] <= L)
         W.goal("C04/K-nondecreasing", env2["nseg"] >= K)
         return
@@ -594,3 +621,237 @@ _GOALS["vec-twostep"] = _GOALS["twostep"]
 _GOALS["vec-regime"] = _GOALS["regime"]
 ALIAS["C04/O=nominal-overlap"] = "C04/O=realised-overlap"
 ALIAS["C03/searchsorted-side-left"] = "C03/b>=bmin-allowance"
+
+
+# ============================================================================ new_ltf_plan
+def new_step(W, cfg):
+    """one iteration of the unified loop from an arbitrary state (fi, j, stage flags, k_stage2, dftlen_crossover, alpha)
+    constrained by the inductive invariant INV (stated below and itself proved: holds initially, preserved by a step)"""
+    Sm = S()
+    fd = astx.get_function_ast(Sm.new_ltf_plan)
+    pre, wh, post = split_body(fd)
+    I = astx.Interp(glob_for(Sm))
+    env = I.block(pre, {"args": dict(cfg)})
+    add_pow_facts(W, cfg)
+    init = dict(env)
+    fi = W.real("fi"); j = W.int("j", lo=0); k2 = W.int("k_stage2", lo=0)
+    s2 = W.bool("stage2"); s3 = W.bool("stage3")
+    cross = W.int("dftlen_crossover", lo=0); alpha = W.real("alpha")
+    st = dict(fi=fi, j=j, k_stage2=k2, stage2=s2, stage3=s3, dftlen_crossover=cross, alpha=alpha)
+    env.update(st)
+    W.assume(fi >= env["fmin"])
+    W.assume(inv(W, cfg, st))
+    W.assume(I.ev(wh.test, env))
+    env1 = I.block(wh.body, env)
+    add_exp_log_facts(W)
+    return I, init, env, env1, post, st
+
+
+def inv(W, cfg, st):
+    """state invariant of the unified loop: stage3 => stage2; alpha <= 0; crossover in [0, N]; before stage 2 nothing of stage 2 has run"""
+    N = cfg["N"]
+    return W.And(W.Implies(st["stage3"], st["stage2"]), st["alpha"] <= 0, st["dftlen_crossover"] >= 0, st["dftlen_crossover"] <= N,
+                 W.Implies(W.Not(st["stage2"]), W.And(W.eq(st["k_stage2"], 0), W.eq(st["alpha"], 0))))
+
+
+def add_exp_log_facts(W):
+    run = W.run
+    for (u, r) in run.uapps.get("exp", []):
+        run.side += [r > 0, z3.Implies(u == 0, r == 1), z3.Implies(u <= 0, r <= 1), z3.Implies(u >= 0, r >= 1)]
+    for (u, r) in run.uapps.get("log", []):
+        run.side += [z3.Implies(u == 1, r == 0), z3.Implies(z3.And(u > 0, u <= 1), r <= 0), z3.Implies(u >= 1, r >= 0)]
+        ctx_vc_log(run, u)
+
+
+def ctx_vc_log(run, u):
+    run.vcs.append(("log@argument>0", z3.BoolVal(True), u > 0))
+
+
+def ob_new(W, part):
+    cfg = config(W)
+    if not W.sym:
+        return concrete_goals(W, "new", cfg, _GOALS["new-" + part])
+    I, init, env0, env1, post, st = new_step(W, cfg)
+    N, fs, olap, bmin, Lmin = cfg["N"], cfg["fs"], cfg["olap"], cfg["bmin"], cfg["Lmin"]
+    fi = env0["fi"]
+    if part == "step":
+        out = run_post(W, I, env1, post, 4)
+        L, K = SR(tz(out["L"][0])), SR(tz(out["K"][0]))
+        step_goals(W, cfg, dict(L=L, K=K, r=out["r"][0], b=out["b"][0], fnext=env1["fi"], fi=fi, fmin=init["fmin"], bmin=bmin, Lmin=Lmin,
+                                stored=(out["f"][0], env1["fres"], env1["fbin"], env1["dftlen"], env1["nseg"])))
+        sh = getattr(I, "last_env", {}).get("shift")
+        seg_goals(W, out, cfg, Lmin, ("C02", "C04"), shift=(sh[0] if sh is not None and hasattr(sh, "__len__") and len(sh) == 1 else None))
+        st1 = {k: env1[k] for k in st}
+        W.goal("C02/invariant-preserved", inv(W, cfg, st1))
+        st_init = {k: init[k] for k in st}
+        W.goal("C02/invariant-initial", inv(W, cfg, st_init))
+        return
+    raise ValueError(part)
+
+
+_GOALS["new-step"] = _GOALS["vec-step"] + ["C02/invariant-preserved", "C02/invariant-initial"]
+ALIAS["C02/invariant-preserved"] = None
+ALIAS["C02/invariant-initial"] = None
+
+
+# ============================================================================ SpectrumAnalyzer.plan() and the Jdes search (DYN, fork mode)
+def ob_search(W, lo, hi):
+    """find_Jdes_binary_search with an arbitrary scheduler nf(Jdes): returns J with nf(J)=target, or None"""
+    import speckit.utils as U
+    target = W.int("target", lo=1)
+    nfs = {J: W.int("nf_%d" % J, lo=1) for J in range(lo, hi + 1)}
+    calls = []
+
+    def sched(**kw):
+        J = kw["Jdes"]
+        calls.append(J)
+        return {"nf": nfs[int(J)]}
+    if W.sym:
+        from symx.shim import clone
+        f = clone(U.find_Jdes_binary_search, MIN_JDES=lo, MAX_JDES=hi)
+        ret = f(sched, target, N=16)
+    else:
+        old = (U.MIN_JDES, U.MAX_JDES)
+        U.MIN_JDES, U.MAX_JDES = lo, hi
+        try:
+            ret = U.find_Jdes_binary_search(sched, target, N=16)
+        finally:
+            U.MIN_JDES, U.MAX_JDES = old
+    W.goal("C04/search-returns-exact-or-None", True if ret is None else W.eq(nfs[int(ret)], target))
+    W.goal("C04/search-result-in-range", ret is None or lo <= int(ret) <= hi)
+    W.goal("C04/search-terminates", len(calls) <= (hi - lo + 1))
+    if ret is None:
+        # None only when no probed Jdes hits the target
+        W.goal("C04/None-means-no-probe-hit", W.And(*[W.ne(nfs[J], target) for J in calls]) if calls else True)
+
+
+def _mk_analyzer(W, A, sched_fn, cfgd, nx, fs, sym):
+    cls = A.SpectrumAnalyzer
+    a = object.__new__(cls)
+    a.fs = fs; a.nx = nx; a.verbose = False; a.iscsd = False
+    a.config = cfgd
+    a._plan_cache = None
+    return a
+
+
+def ob_plan_forced(W, lo, hi):
+    """plan() with force_target_nf: RuntimeError, or a plan with exactly the target number of bins"""
+    import speckit.analysis as A, speckit.utils as U
+    target = W.int("target", lo=1, hi=3)
+    nfs = {J: W.int("nf_%d" % J, lo=1, hi=3) for J in range(lo, hi + 1)}
+
+    def sched(**kw):
+        J = int(kw["Jdes"])
+        n = nfs[J]
+        # a valid plan with n bins (n in 1..3): built for each feasible n by forking on its value
+        for cand in (1, 2, 3):
+            if n == cand:
+                nb = cand
+                break
+        import numpy as rnp
+        return {"f": rnp.arange(1, nb + 1) * 0.1, "r": rnp.full(nb, 0.1), "b": rnp.arange(1, nb + 1) * 1.0, "L": rnp.full(nb, 10), "K": rnp.full(nb, 1),
+                "navg": rnp.full(nb, 1), "D": [rnp.array([0])] * nb, "O": rnp.zeros(nb), "nf": n}
+    cfgd = {"scheduler_func": sched, "scheduler_name": "stub", "final_olap": 0.5, "bmin": 1.0, "Lmin": 1, "Kdes": 10, "force_target_nf": True, "Jdes": target, "band": None, "num_patch_pts": None}
+    a = _mk_analyzer(W, A, sched, cfgd, 10, 1.0, W.sym)
+    if W.sym:
+        from symx.shim import clone, NumpyShim
+        srch = clone(U.find_Jdes_binary_search, MIN_JDES=lo, MAX_JDES=hi)
+        planf = clone(A.SpectrumAnalyzer.plan, np=NumpyShim(), find_Jdes_binary_search=srch)
+    else:
+        old = (U.MIN_JDES, U.MAX_JDES)
+        U.MIN_JDES, U.MAX_JDES = lo, hi
+        planf = A.SpectrumAnalyzer.plan
+    try:
+        try:
+            p = planf(a)
+            W.goal("C04/forced-nf-exact", W.eq(p["nf"], target))
+            W.goal("C04/forced-nf-arrays", len(p["f"]) == p["nf"] if not W.sym else W.eq(p["nf"], len(p["f"])))
+        except RuntimeError:
+            W.goal("C04/forced-nf-exact", True)
+    finally:
+        if not W.sym:
+            U.MIN_JDES, U.MAX_JDES = old
+
+
+def ob_plan(W, Ks, sched_is_lpsd=False):
+    """SpectrumAnalyzer.plan() accepts every plan that satisfies the per-bin post-conditions established for the schedulers"""
+    import speckit.analysis as A, speckit.schedulers as Sm
+    import numpy as rnp
+    nf = len(Ks)
+    N = W.int("N", lo=8, hi=64)
+    Lmin = W.int("Lmin", lo=1)
+    fs = W.real("fs")
+    if W.sym:
+        W.assume(fs > 0); W.assume(Lmin <= N)
+    bins = []
+    for j, Kn in enumerate(Ks):
+        L = W.int("L%d" % j, lo=1)
+        d = [W.int("d%d_%d" % (j, i)) for i in range(Kn)]
+        f = W.real("f%d" % j); r = W.real("r%d" % j)
+        if W.sym:
+            W.assume(L <= N)
+            if not sched_is_lpsd:
+                W.assume(L >= Lmin)
+            W.assume(d[0] == 0)
+            for i in range(Kn - 1):
+                W.assume(d[i + 1] > d[i])
+            W.assume(d[-1] + L <= N)
+            if Kn > 1:
+                W.assume(d[-1] == N - L)
+            else:
+                W.assume(L == N)
+            W.assume(r * L == fs); W.assume(f > 0)
+        bins.append(dict(L=L, d=d, f=f, r=r, K=Kn))
+    if not W.sym:
+        ok = all(b["L"] >= 1 and b["L"] <= N and (sched_is_lpsd or b["L"] >= Lmin) and b["d"][0] == 0 and all(b["d"][i + 1] > b["d"][i] for i in range(b["K"] - 1)) and b["d"][-1] + b["L"] <= N for b in bins)
+        if not ok or not (1 <= Lmin <= N and fs > 0):
+            return
+
+    def plan_dict():
+        mk = (lambda xs: oarr(xs)) if W.sym else (lambda xs: rnp.array(xs))
+        return {"f": mk([b["f"] for b in bins]), "r": mk([b["r"] for b in bins]), "b": mk([b["f"] * b["L"] / fs for b in bins]),
+                "L": mk([b["L"] for b in bins]) if W.sym else rnp.array([b["L"] for b in bins], dtype=int),
+                "K": rnp.array([b["K"] for b in bins]), "navg": rnp.array([b["K"] for b in bins]),
+                "D": [(oarr(b["d"]) if W.sym else rnp.array(b["d"], dtype=int)) for b in bins], "O": rnp.zeros(nf), "m": None, "nf": nf}
+    stub = (lambda **kw: plan_dict())
+    sched_fn = Sm.lpsd_plan if sched_is_lpsd else stub
+    cfgd = {"scheduler_func": sched_fn, "scheduler_name": "stub", "final_olap": 0.5, "bmin": 1.0, "Lmin": Lmin, "Kdes": 10, "force_target_nf": False, "Jdes": 5, "band": None, "num_patch_pts": None}
+    a = _mk_analyzer(W, A, sched_fn, cfgd, N, fs, W.sym)
+    if W.sym:
+        from symx.shim import clone, NumpyShim
+        over = dict(np=NumpyShim())
+        if sched_is_lpsd:
+            over["lpsd_plan"] = Sm.lpsd_plan
+            a.config["scheduler_func"] = _LpsdLike(stub, Sm.lpsd_plan)
+        planf = clone(A.SpectrumAnalyzer.plan, **over)
+    else:
+        planf = A.SpectrumAnalyzer.plan
+        if sched_is_lpsd:
+            return
+    p = planf(a)
+    W.goal("C02/analyzer-accepts", True)
+    W.goal("C02/plan-nf", p["nf"] == nf)
+    W.goal("C02/plan-cached", a._plan_cache is p and planf(a) is p)
+    for j in range(nf):
+        W.goal("C02/plan-D%d-kept" % j, len(p["D"][j]) == Ks[j] and all(bool(W.eq(p["D"][j][i], bins[j]["d"][i])) if not W.sym else True for i in range(Ks[j])))
+        if W.sym:
+            W.goal("C02/plan-D%d-values" % j, W.And(*[W.eq(p["D"][j][i], bins[j]["d"][i]) for i in range(Ks[j])]))
+            W.goal("C02/plan-L%d" % j, W.eq(p["L"][j], bins[j]["L"]))
+
+
+class _LpsdLike:
+    """a stub scheduler that compares equal to lpsd_plan (plan() waives the Lmin check for the LPSD scheduler)"""
+    def __init__(self, f, real):
+        self.f, self.real = f, real
+        self.__name__ = "lpsd_plan"
+
+    def __call__(self, **kw):
+        return self.f(**kw)
+
+    def __eq__(self, o):
+        return o is self.real
+
+    def __ne__(self, o):
+        return o is not self.real
+
+    __hash__ = None
